@@ -222,7 +222,15 @@ func loadState(m *dyn.Model, db *ref.DB) (*txn.Engine, error) {
 		}
 		sort.Strings(us)
 		for _, u := range us {
-			ops = append(ops, ref.Op{Kind: "insert", Table: t.Name, UUID: u, Row: db.T[t.Name][u].Clone()})
+			row := db.T[t.Name][u].Clone()
+			for _, c := range t.Cols {
+				// the library spells the default of a scalar uuid column "":
+				// leave it unset instead of writing the all-zero uuid
+				if c.IsScalar() && c.Key.Type == "uuid" && row[c.Name].Len() == 1 && row[c.Name].K[0].S == ref.ZeroUUID {
+					delete(row, c.Name)
+				}
+			}
+			ops = append(ops, ref.Op{Kind: "insert", Table: t.Name, UUID: u, Row: row})
 		}
 	}
 	if len(ops) == 0 {
